@@ -29,6 +29,7 @@ type job struct {
 	cache   int
 	hist    history
 	op      *opSpec
+	cmd     bool // Redis kinds: faults at the level of Redis commands (redis.go) instead of Storage/Backend calls
 }
 
 func (j job) fmtName() string {
@@ -44,9 +45,13 @@ type faultCase struct {
 	mode    ksrig.FaultMode
 	torn    int
 	tornTag string
+	alt     string // command-level layer: "drop-before" (a variant of error-before: connection closed, command not applied)
 }
 
 func (c faultCase) modeName() string {
+	if c.alt != "" {
+		return c.alt
+	}
 	if c.mode == ksrig.FaultTorn {
 		return "torn-" + c.tornTag
 	}
@@ -99,19 +104,20 @@ func casesFor(c ksrig.FaultCall, extraTorn int) []faultCase {
 }
 
 type monitor struct {
-	r   *ev.Run
-	fx  *fixtures
-	rfx *ringFixtures // ring-level layer (ring.go)
-	mu  sync.Mutex
+	r     *ev.Run
+	fx    *fixtures
+	rfx   *ringFixtures // ring-level layer (ring.go)
+	mu    sync.Mutex
+	hangs hangCaps // guard.go
 }
 
 // Run is the C08 monitor.
 func Run(r *ev.Run) {
-	r.Rule = "cases = for each keystore format (v1 over filesystem.Storage; v2 over in-memory and directory api.Backend; v1 also on a storage without hard links) × history prefix {empty, one-key, rotated-twice, other-clients} × write operation {generate/rotate of the 6 key kinds, destroy current, destroy rotated, save key pair (acra-rotate's call), import of bundles / key rings}: record the fault-free trace c1..cN of storage calls, then for EVERY k and every mode {error-before, error-after, crash-before, crash-after; torn at 0/1/half/len-1/seeded offset for WriteFile/Copy/Put} run the operation with that single fault and probe the post-fault storage (crash: snapshot taken at the crash instant) through fresh handles, and the same handle for error returns; then retry. A case is non-trivial when the planned fault actually fired at the recorded call; distinct = (format, operation, call class, mode) tuples that fired. RING-LEVEL LAYER (v2, both back ends): for each history of api.MutableKeyRing writes {mixed key states, fresh pre-active keys, empty ring} × faulted operation {AddKey sym/pair, SetCurrent, SetState (3 legal transitions), DestroyKey of a pre-active/deactivated/compromised/current key} on ONE kept-open ring handle × every back-end call of it × every mode × follow-up kind {retry, add, add+set-current, set-current, set-state, destroy; thorough: two-operation mixes and a write to another ring} × handle {same ring handle, new ring handle of the same store, second store on the same back end; crash modes: fresh store on the snapshot}: run the operation with the fault, check the storage (fresh store) and the same handle's view, perform the follow-up writes, close everything, reopen and compare every key (state, public/private/symmetric part, current marker) with the API contract applied to the state before; distinct adds (format, history/operation, call class, mode, follow-up kind, handle)"
+	r.Rule = "cases = for each keystore format (v1 over filesystem.Storage; v2 over in-memory and directory api.Backend; v1 also on a storage without hard links) × history prefix {empty, one-key, rotated-twice, other-clients} × write operation {generate/rotate of the 6 key kinds, destroy current, destroy rotated, save key pair (acra-rotate's call), import of bundles / key rings}: record the fault-free trace c1..cN of storage calls, then for EVERY k and every mode {error-before, error-after, crash-before, crash-after; torn at 0/1/half/len-1/seeded offset for WriteFile/Copy/Put} run the operation with that single fault and probe the post-fault storage (crash: snapshot taken at the crash instant) through fresh handles, and the same handle for error returns; then retry. A case is non-trivial when the planned fault actually fired at the recorded call; distinct = (format, operation, call class, mode) tuples that fired. RING-LEVEL LAYER (v2, both back ends): for each history of api.MutableKeyRing writes {mixed key states, fresh pre-active keys, empty ring} × faulted operation {AddKey sym/pair, SetCurrent, SetState (3 legal transitions), DestroyKey of a pre-active/deactivated/compromised/current key} on ONE kept-open ring handle × every back-end call of it × every mode × follow-up kind {retry, add, add+set-current, set-current, set-state, destroy; thorough: two-operation mixes and a write to another ring} × handle {same ring handle, new ring handle of the same store, second store on the same back end; crash modes: fresh store on the snapshot}: run the operation with the fault, check the storage (fresh store) and the same handle's view, perform the follow-up writes, close everything, reopen and compare every key (state, public/private/symmetric part, current marker) with the API contract applied to the state before; distinct adds (format, history/operation, call class, mode, follow-up kind, handle). REDIS LAYER: the first layer's procedure and oracles over v1 on filesystem.RedisStorage and v2 on backend.RedisBackend (fakeredis server per case, foreign keys of other applications in the same database, SCAN over several pages), faults at every Storage/Backend call {error-before/after, crash-before/after; no torn write: a Redis command is atomic} and at every Redis COMMAND of the operation {error reply not applied, connection closed not applied, connection closed after it was applied, process crash before / after it}; distinct adds (format, operation, Redis command class, mode)"
 	r.Assumptions = []string{
 		"crypto library replaced by the pure-Go gothemis stand-in (Secure Cell Seal / Secure Message / EC key contract)",
 		"process-crash model: bytes handed to the storage before the crash instant survive; no power-loss reordering; single fault per operation (plus the no-hard-link configuration which makes Copy part of the fault-free trace)",
-		"Redis storage/back end not covered; acra-rotate is driven through the keystore call it makes (SaveDataEncryptionKeys), not through its main package",
+		"Redis layer: the server is the in-process stand-in rig/fakeredis (atomic, totally ordered commands; key expiry on a virtual clock); every post-fault state is probed after the v2 lock's 10 s time to live has passed; one connection pool per handle; acra-rotate is driven through the keystore call it makes (SaveDataEncryptionKeys), not through its main package",
 		"v1 same-handle probes use an unbounded cache warmed before the operation; fresh-handle probes model the restart",
 		"ring-level layer: expected ring content is the API contract of AddKey/SetCurrent/SetState/DestroyKey applied to the observed state before; it is validated against the real code's fault-free run of the same operation (+ follow-up) and a disagreement is inconclusive, never a violation",
 	}
@@ -204,6 +210,9 @@ func Run(r *ev.Run) {
 		}
 	}
 
+	// Redis layer (redis.go): the same procedure over RedisStorage / RedisBackend, faults at Storage/Backend calls and at Redis commands
+	jobs = append(jobs, redisJobs(r.Thorough(), ops, hs)...)
+
 	// base worlds per (format config, history)
 	type baseKey struct {
 		kind    string
@@ -274,6 +283,7 @@ func Run(r *ev.Run) {
 		rb.w.dispose()
 	}
 
+	redisGuards(r)
 	r.Extra("jobs", len(jobs))
 	r.Extra("ring_jobs", nRing)
 	r.SetExhaustive(r.Thorough()) // thorough: every (format, history, operation) combination × every call × every mode; quick: a fixed subset of the combinations
@@ -338,11 +348,18 @@ func (m *monitor) runJob(j job, base *world, extraTorn int) {
 	// fault-free run
 	w := base.clone()
 	h := w.open(nil)
+	if j.cmd {
+		h.close()
+		h = w.openCmd()
+	}
 	ff := &ffResult{preFiles: w.files()}
 	ff.pre = h.dump(allClients)
 	h.setPlan(ksrig.FaultPlan{})
 	out := ksrig.FaultRun(func() error { return j.op.run(h) })
 	ff.trace = h.calls()
+	if j.cmd {
+		h.cmd.disarm()
+	}
 	h.close()
 	if out.Panic != nil {
 		// the operation panics WITHOUT any fault (seen: v1 destroy-rotated with an index one past the list — C06's subject):
@@ -383,9 +400,19 @@ func (m *monitor) runJob(j job, base *world, extraTorn int) {
 	r.Count("fault_free_calls", int64(len(ff.trace)))
 	r.SampleN("trace:"+j.kind, 2, map[string]interface{}{"what": "fault-free trace", "format": j.fmtName(), "history": j.hist.name, "op": j.op.name, "calls": classes(ff.trace)})
 
+	if isRedis(j.kind) {
+		m.redisTraceStats(j, ff)
+	}
 	for _, c := range ff.trace {
 		r.SetAdd("call_classes", j.kind+":"+c.Op)
-		for _, fc := range casesFor(c, extraTorn) {
+		cases := casesFor(c, extraTorn)
+		if j.cmd {
+			cases = casesForCmd(c, r.Thorough())
+		}
+		for _, fc := range cases {
+			if fc.mode == ksrig.FaultTorn && isRedis(j.kind) {
+				continue // a Redis command is atomic: no torn SET
+			}
 			m.runFault(j, base, ff, c, fc)
 		}
 	}
@@ -397,10 +424,19 @@ type caseCtx struct {
 	call ksrig.FaultCall
 	fc   faultCase
 	tgt  map[string]bool
+	trk  *stepTracker // guard.go: which step of the case is running
 }
 
 func (c *caseCtx) sig(phase, symptom string) string {
-	return fmt.Sprintf("c08:%s:%s:%s:%s:%s:%s", c.j.fmtName(), c.j.op.name, c.call.Class(), c.fc.mode.String(), phase, symptom)
+	mode := c.fc.mode.String()
+	if c.fc.alt != "" {
+		mode = c.fc.alt
+	}
+	pfx := ""
+	if isRedis(c.j.kind) {
+		pfx = "redis " // Redis layer: known-finding matches of the other layers must not cover it
+	}
+	return fmt.Sprintf("%sc08:%s:%s:%s:%s:%s:%s", pfx, c.j.fmtName(), c.j.op.name, c.call.Class(), mode, phase, symptom)
 }
 
 func (m *monitor) violate(c *caseCtx, phase, symptom string, extra map[string]interface{}) {
@@ -426,17 +462,15 @@ func (m *monitor) violate(c *caseCtx, phase, symptom string, extra map[string]in
 func (m *monitor) runFault(j job, base *world, ff *ffResult, call ksrig.FaultCall, fc faultCase) {
 	r := m.r
 	r.Case()
-	c := &caseCtx{j: j, ff: ff, call: call, fc: fc, tgt: j.op.targets(j.kind != "v1")}
-	done := make(chan struct{})
-	go func() {
-		defer close(done)
-		m.runFaultInner(c, base)
-	}()
-	select {
-	case <-done:
-	case <-time.After(60 * time.Second):
-		r.Inconclusive(fmt.Sprintf("watchdog: %s call#%d %s %s did not finish in 60 s", describe(j.fmtName(), j.hist.name, j.op), call.Seq, call.Class(), fc.modeName()))
+	c := &caseCtx{j: j, ff: ff, call: call, fc: fc, tgt: j.op.targets(!isV1(j.kind))}
+	detail := func() map[string]interface{} {
+		return map[string]interface{}{"format": j.fmtName(), "history": j.hist.name, "operation": j.op.name, "fault_call_index": call.Seq, "fault_call": call.Class(),
+			"fault_mode": fc.modeName(), "fault_free_trace": classes(ff.trace), "fault_level": redisLevel(j)}
 	}
+	m.guardCase("c08-ops", j.fmtName(), j.op.name, call.Class(), fc.modeName(), detail, func(t *stepTracker) {
+		c.trk = t
+		m.runFaultInner(c, base)
+	})
 }
 
 func (m *monitor) runFaultInner(c *caseCtx, base *world) {
@@ -446,18 +480,47 @@ func (m *monitor) runFaultInner(c *caseCtx, base *world) {
 	defer w.dispose()
 	var snap *world
 	h := w.open(func(s *world) { snap = s })
-	defer h.close()
-	if j.kind == "v1" {
+	if j.cmd {
+		h.close()
+		h = w.openCmd()
+	}
+	defer func() { h.close() }()
+	if isV1(j.kind) {
 		h.dump(allClients) // warms the v1 cache exactly like the fault-free run did (v2 handles keep no cache)
 	}
+	if h.cmd != nil {
+		h.cmd.alt = fc.alt
+	}
 	h.setPlan(ksrig.FaultPlan{At: fc.k, Mode: fc.mode, TornBytes: fc.torn})
+	c.trk.step("operation")
 	out := ksrig.FaultRun(func() error { return j.op.run(h) })
+	c.trk.step("after-operation")
 	got := h.calls()
+	if j.cmd {
+		h.cmd.disarm()
+		if fc.mode.IsCrash() && h.fired() {
+			// every command after the crash point was dropped unapplied: the dataset is the one of the crash instant
+			h.close()
+			snap = w.clone()
+		}
+	}
+	w.settle()
+	if snap != nil {
+		snap.settle()
+	}
+	defer func() {
+		if snap != nil {
+			snap.dispose()
+		}
+	}()
 	if !h.fired() || len(got) < fc.k || got[fc.k-1].Class() != c.call.Class() {
 		r.Inconclusive(fmt.Sprintf("trace diverged before the fault point: %s call#%d expected %s", describe(j.fmtName(), j.hist.name, j.op), fc.k, c.call.Class()))
 		return
 	}
 	r.Count("fault_runs_fired", 1)
+	if isRedis(j.kind) {
+		m.redisCaseStats(c)
+	}
 	r.Count("mode:"+fc.mode.String(), 1)
 	if fc.mode == ksrig.FaultTorn {
 		r.Count("torn_writes", 1)
@@ -471,13 +534,16 @@ func (m *monitor) runFaultInner(c *caseCtx, base *world) {
 	sample := map[string]interface{}{"format": j.fmtName(), "history": j.hist.name, "op": j.op.name, "call#": fc.k, "call": c.call.Class(), "mode": fc.modeName()}
 
 	if fc.mode.IsCrash() {
-		if out.Crashed == nil || snap == nil {
+		if (out.Crashed == nil && !j.cmd) || snap == nil {
 			r.Inconclusive("crash mode did not crash: " + c.sig("op", ""))
 			return
 		}
-		defer snap.dispose()
 		r.Count("crash_snapshots_probed", 1)
+		if isRedis(j.kind) {
+			r.Count("redis_crash_snapshots_probed", 1)
+		}
 		// restart: a fresh handle on the snapshot
+		c.trk.step("reads and listings after the crash")
 		hp := snap.openPlain()
 		d := hp.dump(allClients)
 		hp.close()
@@ -488,8 +554,10 @@ func (m *monitor) runFaultInner(c *caseCtx, base *world) {
 			return
 		}
 		// follow-up write: retry the operation on the restarted keystore
+		c.trk.step("retried write after the crash")
 		h2 := snap.openPlain()
 		ro := ksrig.FaultRun(func() error { return j.op.run(h2) })
+		c.trk.step("reads and listings after the retry")
 		h2.close()
 		if m.checkRetry(c, "retry-after-crash", ro, snap) {
 			h3 := snap.openPlain()
@@ -503,15 +571,20 @@ func (m *monitor) runFaultInner(c *caseCtx, base *world) {
 		if out.Err != nil {
 			r.Count("error_returns", 1)
 			// the process lives on: same handle
+			c.trk.step("reads and listings after the error (same handle)")
 			dSame = h.dump(allClients)
 			r.Count("error_returns_probed_same_handle", 1)
-			if j.kind == "v1" && j.cache > 0 {
+			if isRedis(j.kind) {
+				r.Count("redis_error_returns_probed_same_handle", 1)
+			}
+			if isV1(j.kind) && j.cache > 0 {
 				r.Count("error_returns_probed_same_handle_lru_cache", 1)
 			}
 			m.check(c, "after-error(same-handle)", dSame, w)
 		} else {
 			r.Count("fault_absorbed_op_succeeded", 1)
 		}
+		c.trk.step("reads and listings after the error (fresh handle)")
 		hp := w.openPlain()
 		d := hp.dump(allClients)
 		hp.close()
@@ -526,7 +599,9 @@ func (m *monitor) runFaultInner(c *caseCtx, base *world) {
 			return
 		}
 		h.setPlan(ksrig.FaultPlan{})
+		c.trk.step("retried write after the error (same handle)")
 		ro := ksrig.FaultRun(func() error { return j.op.run(h) })
+		c.trk.step("reads and listings after the retry")
 		if m.checkRetry(c, "retry-after-error", ro, w) {
 			h3 := w.openPlain()
 			d3 := h3.dump(allClients)
